@@ -1,4 +1,5 @@
 import RichModel.Model.Pretty
+import RichModel.Model.PrettyConsole
 import RichModel.Gen.CellWidths
 import RichModel.Drv.Proto
 /- Driver handlers for the pretty-printer model (property C16).
@@ -247,6 +248,40 @@ def handlers : List (String × (List String → String)) := [
         match traverseAny py v (decOptInt ml) (decOptInt ms) h r with
         | .ok (some n) =>
           (match prettyMeasure cw v n (decInt w) (decInt ind) (decBool ea) with
+            | .ok m => toString m
+            | .error _ => "err:ValueError")
+        | .ok none => "none"
+        | .error _ => "err:ValueError"
+    | _ => "bad-args"),
+  ("pretty.console_full", fun a => match a with   -- everything Pretty.__rich_console__ yields, guides included
+    | [ds, al, heap, root, ml, ms, reprs, ind, pj, po, pnw, guides, ea, margin, insertLine, cw_, cj, co, cnw, ascii] =>
+      if !isInt cw_ || !isInt ind || !isInt margin then "bad-args" else
+      withHeap heap root ml ms reprs fun py h r =>
+        let v := mkVariant ds al "1"
+        match traverseAny py v (decOptInt ml) (decOptInt ms) h r with
+        | .ok (some n) =>
+          let p : PrettyOpts := ⟨decInt ind, decOptStr pj, decOptStr po, decOptBool pnw, decBool guides, decBool ea, decInt margin, decBool insertLine⟩
+          let o : ConsoleOpts := ⟨decInt cw_, decOptStr cj, decOptStr co, decOptBool cnw, decBool ascii⟩
+          let s := stripControl (render cw v n (o.maxWidth - p.margin) p.indentSize p.expandAll)
+          -- Text.expand_tabs is not modelled: a tab under indent guides is outside the modelled domain
+          if p.indentGuides && !o.asciiOnly && s.contains '\t' then "unmodelled" else
+          match prettyConsoleFull cw v n p o with
+          | .ok out =>
+            ";".intercalate ([toString out.parts.length] ++ out.parts.map encStr ++
+              [encOptStr out.justify, encOptStr out.overflow, encBool out.noWrap])
+          | .error .zeroDivision => "err:ZeroDivisionError"
+          | .error .valueError => "err:ValueError"
+        | .ok none => "none"
+        | .error _ => "err:ValueError"
+    | _ => "bad-args"),
+  ("pretty.measure_m", fun a => match a with   -- Pretty(margin=).__rich_measure__(console, max_width); im = flag ignoreMargin
+    | [ds, al, mn, im, heap, root, ml, ms, reprs, w, ind, ea, margin] =>
+      if !isInt w || !isInt ind || !isInt margin then "bad-args" else
+      withHeap heap root ml ms reprs fun py h r =>
+        let v := mkVariant ds al mn
+        match traverseAny py v (decOptInt ml) (decOptInt ms) h r with
+        | .ok (some n) =>
+          (match prettyMeasureM (decBool im) cw v n (decInt w) (decInt ind) (decBool ea) (decInt margin) with
             | .ok m => toString m
             | .error _ => "err:ValueError")
         | .ok none => "none"
